@@ -2,6 +2,10 @@
 
 package fzf
 
+import (
+	"github.com/junegunn/fzf/src/util"
+)
+
 // Verification hooks (build tag `verif`): thin exported wrappers around
 // unexported functions so that an external harness can drive them.
 // Add-only; nothing here is compiled into a normal build.
@@ -36,4 +40,204 @@ func VerifConstants() map[string]int {
 		"exitBecome":              ExitBecome,
 		"exitInterrupt":           ExitInterrupt,
 	}
+}
+
+// --- tokenizer.go / options.go (delimiters, ranges) ---
+
+func VerifDelimiter(str string) Delimiter { return delimiterRegexp(str) }
+
+// VerifDelimiterKind: "awk", "str" (with the literal) or "regex".
+func (d Delimiter) VerifKind() (string, string) {
+	if d.IsAwk() {
+		return "awk", ""
+	}
+	if d.str != nil {
+		return "str", *d.str
+	}
+	return "regex", d.regex.String()
+}
+
+func (d Delimiter) VerifLocs(text string) [][]int {
+	if d.regex == nil {
+		return nil
+	}
+	return d.regex.FindAllStringIndex(text, -1)
+}
+
+func (t Token) VerifFields() (string, int)    { return t.text.ToString(), int(t.prefixLength) }
+func (r Range) VerifFields() (int, int)       { return r.begin, r.end }
+func VerifSplitNth(s string) ([]Range, error) { return splitNth(s) }
+
+// --- pattern.go ---
+
+type VerifTerm struct {
+	Typ           int
+	Inv           bool
+	Text          []rune
+	CaseSensitive bool
+	Normalize     bool
+}
+
+func verifTermSets(sets []termSet) [][]VerifTerm {
+	out := make([][]VerifTerm, len(sets))
+	for i, s := range sets {
+		for _, t := range s {
+			out[i] = append(out[i], VerifTerm{int(t.typ), t.inv, t.text, t.caseSensitive, t.normalize})
+		}
+	}
+	return out
+}
+
+func VerifParseTerms(fuzzy bool, caseMode Case, normalize bool, str string) [][]VerifTerm {
+	return verifTermSets(parseTerms(fuzzy, caseMode, normalize, str))
+}
+
+type VerifPatternInfo struct {
+	Text          []rune
+	CaseSensitive bool
+	Normalize     bool
+	Sortable      bool
+	Cacheable     bool
+	CacheKey      string
+	TermSets      [][]VerifTerm
+}
+
+func (p *Pattern) VerifInfo() VerifPatternInfo {
+	return VerifPatternInfo{p.text, p.caseSensitive, p.normalize, p.sortable, p.cacheable, p.cacheKey, verifTermSets(p.termSets)}
+}
+
+// VerifSetCriteria sets the package-level sort criteria (0 score, 1 chunk, 2 length, 3 begin, 4 end, 5 pathname).
+func VerifSetCriteria(cs []int) {
+	sortCriteria = make([]criterion, len(cs))
+	for i, c := range cs {
+		sortCriteria[i] = criterion(c)
+	}
+}
+
+func VerifNewItem(data []byte, index int32) *Item {
+	item := &Item{text: util.ToChars(data)}
+	item.text.Index = index
+	return item
+}
+
+func (r *Result) VerifPoints() [4]uint16 { return r.points }
+
+// --- result.go / merger.go ---
+
+func VerifBuildResult(item *Item, offsets [][2]int32, score int) [4]uint16 {
+	offs := make([]Offset, len(offsets))
+	for i, o := range offsets {
+		offs[i] = Offset{o[0], o[1]}
+	}
+	r := buildResult(item, offs, score)
+	return r.points
+}
+
+type VerifRank struct {
+	Points [4]uint16
+	Index  int32
+}
+
+func verifResult(r VerifRank) Result {
+	item := &Item{}
+	item.text.Index = r.Index
+	return Result{item: item, points: r.Points}
+}
+
+func VerifCompareRanks(a VerifRank, b VerifRank, tac bool) bool {
+	return compareRanks(verifResult(a), verifResult(b), tac)
+}
+
+// VerifMergerProbe builds a Merger over the given lists and returns the item index found at
+// each probed position, in probe order (-1: Get panicked).
+func VerifMergerProbe(lists [][]VerifRank, sorted bool, tac bool, probes []int) []int32 {
+	rl := make([][]Result, len(lists))
+	for i, l := range lists {
+		for _, r := range l {
+			rl[i] = append(rl[i], verifResult(r))
+		}
+	}
+	mg := NewMerger(nil, rl, sorted, tac, revision{}, 0)
+	out := make([]int32, len(probes))
+	for i, p := range probes {
+		func() {
+			defer func() {
+				if recover() != nil {
+					out[i] = -1
+				}
+			}()
+			out[i] = mg.Get(p).item.Index()
+		}()
+	}
+	return out
+}
+
+func VerifSliceChunks(partitions int, numChunks int) [][]int {
+	m := &Matcher{partitions: partitions}
+	chunks := make([]*Chunk, numChunks)
+	idx := map[*Chunk]int{}
+	for i := range chunks {
+		chunks[i] = &Chunk{}
+		idx[chunks[i]] = i
+	}
+	out := [][]int{}
+	for _, s := range m.sliceChunks(chunks) {
+		row := []int{}
+		for _, c := range s {
+			row = append(row, idx[c])
+		}
+		out = append(out, row)
+	}
+	return out
+}
+
+// --- chunklist.go ---
+
+// VerifChunkScript pushes `pushes` items (numbered from 0), taking a snapshot with the given tail
+// after each listed push count; returns for every snapshot the item indices per chunk and the
+// reported count, plus what PassMerger.Get returns at the probed positions of the last snapshot.
+func VerifChunkScript(pushes int, snapAt []int, tail int, tac bool, probes []int) (snaps [][][]int32, counts []int, got []int32) {
+	var next int32
+	cl := NewChunkList(NewChunkCache(), func(item *Item, data []byte) bool {
+		item.text = util.ToChars(data)
+		item.text.Index = next
+		next++
+		return true
+	})
+	var last []*Chunk
+	si := 0
+	for n := 0; n <= pushes; n++ {
+		for si < len(snapAt) && snapAt[si] == n {
+			snap, cnt, _ := cl.Snapshot(tail)
+			row := [][]int32{}
+			for _, c := range snap {
+				is := []int32{}
+				for k := 0; k < c.count; k++ {
+					is = append(is, c.items[k].Index())
+				}
+				row = append(row, is)
+			}
+			snaps = append(snaps, row)
+			counts = append(counts, cnt)
+			last = snap
+			si++
+		}
+		if n < pushes {
+			cl.Push([]byte("x"))
+		}
+	}
+	if last != nil && len(last) > 0 {
+		mg := PassMerger(&last, tac, revision{})
+		for _, p := range probes {
+			func() {
+				defer func() {
+					if recover() != nil {
+						got = append(got, -1)
+					}
+				}()
+				got = append(got, mg.Get(p).item.Index())
+			}()
+		}
+	}
+	return
 }
